@@ -98,12 +98,19 @@ def _single(kind):
   mb = skeletons.ModelBuilder()
   g = mb.subgraph()
   if kind in ('CONV_2D', 'DEPTHWISE_CONV_2D', 'TRANSPOSE_CONV',
+              'CONV_2D_NOBIAS', 'DEPTHWISE_CONV_2D_NOBIAS',
+              'TRANSPOSE_CONV_NOBIAS', 'TRANSPOSE_CONV_EMPTY_BIAS',
               'AVERAGE_POOL_2D', 'AVERAGE_POOL_2D_RELU',
               'AVERAGE_POOL_2D_RELU6'):
     x = g.input('x', (1, 2, 2, 2))
     y = {'CONV_2D': lambda: g.conv2d(x, 'y'),
          'DEPTHWISE_CONV_2D': lambda: g.dwconv2d(x, 'y'),
          'TRANSPOSE_CONV': lambda: g.transpose_conv(x, 'y'),
+         'CONV_2D_NOBIAS': lambda: g.conv2d(x, 'y', bias=False),
+         'DEPTHWISE_CONV_2D_NOBIAS': lambda: g.dwconv2d(x, 'y', bias=False),
+         'TRANSPOSE_CONV_NOBIAS': lambda: g.transpose_conv(x, 'y', bias=False),
+         'TRANSPOSE_CONV_EMPTY_BIAS': lambda: g.transpose_conv(
+             x, 'y', bias='empty'),
          'AVERAGE_POOL_2D': lambda: g.avgpool(x, 'y'),
          'AVERAGE_POOL_2D_RELU': lambda: g.avgpool(x, 'y', fused=1),
          'AVERAGE_POOL_2D_RELU6': lambda: g.avgpool(x, 'y', fused=3)}[kind]()
@@ -172,7 +179,9 @@ SINGLE_KINDS = ['FC', 'FC_NOBIAS', 'CONV_2D', 'DEPTHWISE_CONV_2D',
                 'MEAN', 'STRIDED_SLICE', 'AVERAGE_POOL_2D', 'SOFTMAX',
                 'LOGISTIC', 'TANH', 'GELU', 'RSQRT', 'CONCATENATION',
                 'CONCAT_SAME', 'SPLIT', 'RELU', 'CAST', 'AVERAGE_POOL_2D_RELU',
-                'AVERAGE_POOL_2D_RELU6', 'FC_RELU', 'ADD_RELU6']
+                'AVERAGE_POOL_2D_RELU6', 'FC_RELU', 'ADD_RELU6', 'CONV_2D_NOBIAS',
+                'DEPTHWISE_CONV_2D_NOBIAS', 'TRANSPOSE_CONV_NOBIAS',
+                'TRANSPOSE_CONV_EMPTY_BIAS']
 
 
 def _topologies():
